@@ -4,6 +4,7 @@ pub mod lemmas;
 pub mod refenc;
 pub mod sinks;
 pub mod types;
+pub mod nm;
 
 #[cfg(kani)]
 pub mod c01_rt;
@@ -11,6 +12,10 @@ pub mod c01_rt;
 pub mod c02_eps;
 #[cfg(kani)]
 pub mod c15_tags;
+#[cfg(kani)]
+pub mod c04_hash;
+#[cfg(kani)]
+pub mod c05_subst;
 #[cfg(kani)]
 pub mod c07_pad;
 #[cfg(kani)]
@@ -27,6 +32,8 @@ pub mod c14_rfrag;
 pub mod c16_slices;
 #[cfg(kani)]
 pub mod c17_zero;
+#[cfg(kani)]
+pub mod c18_schema;
 #[cfg(kani)]
 pub mod c19_cursor;
 
